@@ -20,6 +20,10 @@ FAULTS = [
     ("wrong-literal-in-set", ("vec", ("int", "i32")), ("seq", [("int", 3)]), '#("x")', '"x"'),
     ("wrong-map-key-type", ("map", ("string",), ("int", "i32")), ("map", [("str", "k")], [("int", 1)]), '#{ 5: 1 }', "5"),
     ("wrong-ne-operand", ("bool",), ("bool", True), "!= 1", "1"),
+    # the value's type has Like impls, but not for this pattern type: the error is about the argument of `.like(..)`
+    ("like-impl-for-other-type", ("string",), ("str", "abc"), "=~ 5", "5"),
+    ("like-impl-for-other-type-expr", ("string",), ("str", "abc"), "=~ (1, 2)", "(1, 2)"),
+    ("like-impl-for-other-type-bool", ("string",), ("str", "abc"), "=~ true", "true"),
 ]
 STRUCT_FAULTS = [
     ("unknown-field", "Inner { nope: 1, .. }", "nope"),
